@@ -47,13 +47,14 @@ pub fn values_scaled_special<G: GroupApi>(seed: u64) -> Vec<Val<G>> {
     let ds = vec![n(1), r() - n(1), c.lambda.clone(), n(2), mccore::alpha::generic(r(), seed, 0x5c, 1).pop().unwrap()];
     let mut out = vec![];
     for s in special(refmodel::q()) {
-        let sf = G::rf_from_n(&s);
-        if sf.is_zero() {
-            continue;
-        }
-        for d in &ds {
-            if let Some(v) = build::<G>(d, &Rep::Scaled(sf.clone())) {
-                out.push(v);
+        for sf in G::scale_embeddings(&s) {
+            if sf.is_zero() {
+                continue;
+            }
+            for d in &ds {
+                if let Some(v) = build::<G>(d, &Rep::Scaled(sf.clone())) {
+                    out.push(v);
+                }
             }
         }
     }
